@@ -35,7 +35,7 @@ ASSUMPTIONS = [
     'reversed TIF files whose first next-word is 0x100 or 0x10000 are excluded (two byte orders indistinguishable)',
     'no stored-byte fault: the statement is about files written conformantly',
 ]
-PROBES = ['checksum_boundary_value', 'two_readers_interleaved', 'record_number_wraps', 'read_ends_at_pr_boundary', 'read_ends_at_record_boundary', 'skip_across_ge2_pr', 'seek_back_after_eof', 'seek_partial_seek_same',
+PROBES = ['writer_starts_past_zero', 'checksum_boundary_value', 'two_readers_interleaved', 'record_number_wraps', 'read_ends_at_pr_boundary', 'read_ends_at_record_boundary', 'skip_across_ge2_pr', 'seek_back_after_eof', 'seek_partial_seek_same',
           'payload_lt_one_pr', 'pr_with_1_byte', 'tif_reversed', 'tif_normal', 'none_at_record_end', 'run_on_into_next', 'eof_reached',
           'foreign_chunking', 'written_reread', 'strip_tif', 'seek_cur', 'tell_checked', 'all_trailers']
 
@@ -81,9 +81,16 @@ def gen_ops(rng, model):
 def generate(seed, tier):
     rng = seeds.Rng(seed)
     model = L.gen_model(rng)
+    if model['tif'] == 'none' and rng.chance(0.2):
+        sc_prefix = L.gen_model(seeds.Rng(rng.getrandbits(32)), max_records=5)
+        sc_prefix['tif'] = 'none'
+    else:
+        sc_prefix = None
     if model['chk'] and not model['rec'] and rng.chance(0.15):
         L.shape_checksum(model)          # physical records whose checksum is all ones, zero or next to them
     sc = {'world': 'lis_phys', 'model': model, 'ops': gen_ops(rng, model), 'reread_written': rng.chance(0.5)}
+    if sc_prefix is not None:
+        sc['writer_prefix'] = sc_prefix
     if rng.chance(0.2):
         # a second reader on another file is alive at the same time: [k, -1] = before operation k it reads its next whole record
         other = L.gen_model(seeds.Rng(rng.getrandbits(32)), max_records=6)
@@ -96,7 +103,7 @@ def _tail(model):
     return PhysRec.PhysRecTail(hasRecNum=model['rec'], fileNum=model['file'], hasCheckSum=model['chk'])
 
 
-def drive_writer(res, model):
+def drive_writer(res, model, prefix=None):
     """(1) real writer vs producer (greedy chunking). Returns the written bytes or None."""
     greedy = dict(model, rec_start=0, tif='none' if model['tif'] == 'none' else 'normal',
                   records=[{k: v for k, v in r.items() if k != 'chunks'} for r in model['records']])
@@ -104,7 +111,21 @@ def drive_writer(res, model):
     out = SimFile(b'', EventClock(), writable=True, name='written.lis')
     res.op('write', len(model['records']))
     positions = []
+    plen = 0
     try:
+        if prefix is not None and greedy['tif'] == 'none':
+            # an earlier logical file was written to the same stream by another writer (its own trailer options): this writer
+            # starts at the end of it, and everything it reports is a position in the stream
+            res.probe('writer_starts_past_zero')
+            pexp, play = L.build(dict(prefix, rec_start=0, tif='none', records=[{k: v for k, v in r.items() if k != 'chunks'} for r in prefix['records']]))
+            w0 = File.FileWrite(out, 'written.lis', False, False, prefix['prlen'], _tail(prefix))
+            for rec in play['records']:
+                w0.write(rec['payload'])
+            plen = len(out.getvalue())
+            if plen != len(pexp):
+                res.violation('write-layout', f'first writer on the stream wrote {plen} bytes, the LIS-79 layout has {len(pexp)}', tif='none',
+                              rec=prefix['rec'], file=prefix['file'] is not None, chk=prefix['chk'])
+                return None, lay
         w = File.FileWrite(out, 'written.lis', False, greedy['tif'] != 'none', model['prlen'], _tail(model))
         for rec in lay['records']:
             positions.append(w.write(rec['payload']))
@@ -112,7 +133,22 @@ def drive_writer(res, model):
     except Exception as err:
         res.violation('write-exception', f'{type(err).__name__}: {err}', exc=type(err).__name__, tif=greedy['tif'])
         return None, lay
-    got = out.getvalue()
+    whole = out.getvalue()
+    got = whole[plen:]
+    if plen:
+        # positions are positions in the stream: seeking there in the whole file must deliver the record
+        try:
+            rd = File.FileRead(SimFile(whole, EventClock(), name='written.lis'), 'written.lis', False)
+            for k_ in range(len(lay['records']) - 1, -1, -1):
+                rd.seekLr(positions[k_])
+                if rd.readLrBytes() != lay['records'][k_]['payload']:
+                    res.violation('write-positions', f'second writer on the stream (it started at {plen}): write() returned {positions[k_]} for record {k_}; '
+                                  f'seeking there does not deliver that record (the layout puts it at {plen + lay["records"][k_]["pos"]})', tif='none', second_writer=True)
+                    break
+        except Exception as err:
+            res.violation('write-positions', f'second writer on the stream (it started at {plen}): positions {positions[:6]} cannot be read back: '
+                          f'{type(err).__name__}: {err}', tif='none', second_writer=True)
+        positions = [p_ - plen for p_ in positions]
     mask = list(lay['mask']) + [(p_, 2) for p_ in lay['chk_pos']]
     res.ev('written', len(got), seeds.digest(L.masked(got, mask) if len(got) == len(exp) else got))
     want_pos = [r['pos'] for r in lay['records']]
@@ -214,7 +250,7 @@ def execute(scenario):
         if any(p['data_len'] == 1 for p in r['prs']):
             res.probe('pr_with_1_byte')
     # (1) writer
-    written, wlay = drive_writer(res, model)
+    written, wlay = drive_writer(res, model, scenario.get('writer_prefix'))
     if written is not None and scenario.get('reread_written'):
         check_reread_written(res, written, wlay)
     # (3) strip_tif
@@ -483,6 +519,8 @@ def _fd(a, b):
 
 
 def candidates(scenario):
+    if scenario.get('writer_prefix'):
+        yield {k: v for k, v in scenario.items() if k != 'writer_prefix'}
     if scenario.get('shadow'):
         yield {k: v for k, v in scenario.items() if k != 'shadow'}
         st = scenario['shadow']['steps']
